@@ -146,6 +146,17 @@ def jobs(tier):
                                         "scripts": [[[shape, path, cl]], [[shape, path, cr]]], "opts": opts,
                                         "mode": {"k": None, "cap": 1200, "depth": 60,
                                                  "audit": 64 if tier == "quick" else 8}})
+    # the two accounts use different content-hash functions: equal bytes must still be recognised as equal (no resolver call)
+    for cfg in cfgs:
+        for shape in ("create", "write"):
+            path = "c" if shape == "create" else "a"
+            for cname in ("equal", "both_empty", "distinct"):
+                cl, cr = CONTENTS[cname]
+                for b in ("none", "local_keep", "remote_drop"):
+                    out.append({"prop": PROP, "cfg": cfg, "order": "asc", "base": "B1",
+                                "scripts": [[[shape, path, cl]], [[shape, path, cr]]],
+                                "opts": {"resolver": b, "users_first": True, "remote_hash": "sha256"},
+                                "mode": {"k": None, "cap": 1200, "depth": 60, "audit": 0}})
     # a third operation re-edits one side while the conflict is still being worked on (all interleavings, engine may start early)
     for cfg in cfgs:
         for shape, path in (("create", "c"), ("write", "a")):
